@@ -93,6 +93,17 @@ pub struct UnitReport {
 struct Queue {
     buckets: Vec<Vec<Vec<u32>>>,
     in_flight: usize,
+    /// executions in flight, per cost of their prefix
+    in_flight_cost: Vec<usize>,
+}
+
+impl Queue {
+    /// The lowest deviation cost for which some execution has not finished yet (queued or in flight).
+    fn lowest_open_cost(&self) -> usize {
+        let q = self.buckets.iter().position(|b| !b.is_empty()).unwrap_or(usize::MAX);
+        let f = self.in_flight_cost.iter().position(|&n| n > 0).unwrap_or(usize::MAX);
+        q.min(f)
+    }
 }
 
 fn sel_devs(points: &[ChoicePoint], upto: usize) -> usize {
@@ -103,7 +114,7 @@ fn sel_devs(points: &[ChoicePoint], upto: usize) -> usize {
 /// Lowest-cost prefixes first, so the first counterexample has the fewest deviations.
 pub fn explore(unit: &str, bounds: &Bounds, run: RunFn, known: &(dyn Fn(&str) -> bool + Sync), threads: usize) -> UnitReport {
     let start = Instant::now();
-    let queue = Arc::new((Mutex::new(Queue { buckets: vec![vec![vec![]]], in_flight: 0 }), Condvar::new()));
+    let queue = Arc::new((Mutex::new(Queue { buckets: vec![vec![vec![]]], in_flight: 0, in_flight_cost: vec![] }), Condvar::new()));
     let stop = Arc::new(AtomicBool::new(false));
     let execs = Arc::new(AtomicU64::new(0));
     let report = Arc::new(Mutex::new(UnitReport { unit: unit.to_string(), bound_d: bounds.d, bound_f: bounds.f, completed: true, ..Default::default() }));
@@ -143,10 +154,14 @@ pub fn explore(unit: &str, bounds: &Bounds, run: RunFn, known: &(dyn Fn(&str) ->
                         if stop.load(Ordering::Relaxed) {
                             q.buckets.iter_mut().for_each(|b| b.clear());
                         }
-                        if let Some(b) = q.buckets.iter_mut().find(|b| !b.is_empty()) {
-                            let p = b.pop().unwrap();
+                        if let Some(c) = q.buckets.iter().position(|b| !b.is_empty()) {
+                            let p = q.buckets[c].pop().unwrap();
                             q.in_flight += 1;
-                            break Some(p);
+                            while q.in_flight_cost.len() <= c {
+                                q.in_flight_cost.push(0);
+                            }
+                            q.in_flight_cost[c] += 1;
+                            break Some((c, p));
                         }
                         if q.in_flight == 0 {
                             cv.notify_all();
@@ -155,7 +170,7 @@ pub fn explore(unit: &str, bounds: &Bounds, run: RunFn, known: &(dyn Fn(&str) ->
                         q = cv.wait(q).unwrap();
                     }
                 };
-                let Some(prefix) = prefix else { return };
+                let Some((my_cost, prefix)) = prefix else { return };
                 let plen = prefix.len();
                 let x = run(&prefix, false);
                 let n = execs.fetch_add(1, Ordering::Relaxed) + 1;
@@ -209,13 +224,17 @@ pub fn explore(unit: &str, bounds: &Bounds, run: RunFn, known: &(dyn Fn(&str) ->
                             hard_stop = true;
                         }
                     }
-                    if n >= bounds.max_execs && r.cap_hit.is_none() {
-                        r.cap_hit = Some(format!("execution cap {} reached", bounds.max_execs));
-                        r.completed = false;
-                        hard_stop = true;
-                    }
-                    if start.elapsed() > bounds.max_wall && r.cap_hit.is_none() {
-                        r.cap_hit = Some(format!("wall-clock cap {}s reached", bounds.max_wall.as_secs()));
+                    let cap = if n >= bounds.max_execs {
+                        Some(format!("execution cap {} reached", bounds.max_execs))
+                    } else if start.elapsed() > bounds.max_wall {
+                        Some(format!("wall-clock cap {}s reached", bounds.max_wall.as_secs()))
+                    } else {
+                        None
+                    };
+                    if let (Some(cap), true) = (cap, r.cap_hit.is_none()) {
+                        // lowest-cost-first: everything cheaper than the cheapest unfinished execution has been run
+                        let open = queue.0.lock().unwrap().lowest_open_cost().min(my_cost);
+                        r.cap_hit = Some(format!("{} at bound d={}; every execution of deviation cost <= {} was run", cap, bounds.d, open as i64 - 1));
                         r.completed = false;
                         hard_stop = true;
                     }
@@ -260,6 +279,7 @@ pub fn explore(unit: &str, bounds: &Bounds, run: RunFn, known: &(dyn Fn(&str) ->
                     q.buckets[c].push(np);
                 }
                 q.in_flight -= 1;
+                q.in_flight_cost[my_cost] -= 1;
                 cv.notify_all();
             });
         }
